@@ -18,7 +18,8 @@ def lifecycle_script(sid, seq, okdir, baddir, uid0, leak=True, busy=False):
         if st[0] == "start":
             _, c, d, f, w = st
             s.add("bus silent %d" % (0 if w else 1)); s.add("debug %d" % (1 if d else 0))
-            i = len(s.lines); s.add("start %s %d" % ({"ok": okdir, "bad": baddir, "none": "~"}[c], 5 if f else 0))
+            bd = baddir if isinstance(baddir, str) else baddir[len(s.lines) % len(baddir)]      # the kinds of rejected configuration in turn
+            i = len(s.lines); s.add("start %s %d" % ({"ok": okdir, "bad": bd, "none": "~"}[c], 5 if f else 0))
             j = len(s.lines); s.add("globals")
             if busy:                                   # leave work behind: exhausted budget, held messages, a stalled node, queued uplink
                 for k in range(11): s.add("ll bidib_send_sys_get_magic 01 00 00")
@@ -29,7 +30,7 @@ def lifecycle_script(sid, seq, okdir, baddir, uid0, leak=True, busy=False):
         elif st[0] == "startserial":
             # the serial entry point with a device that does not exist / no device at all
             _, dev, c = st
-            i = len(s.lines); s.add("startserial %s %s 0" % ("/nonexistent/ttyBiDiB" if dev == "missing" else "~", {"ok": okdir, "bad": baddir}[c]))
+            i = len(s.lines); s.add("startserial %s %s 0" % ("/nonexistent/ttyBiDiB" if dev == "missing" else "~", {"ok": okdir, "bad": baddir if isinstance(baddir, str) else baddir[0]}[c]))
             ev.append(((i, None), {"e": "startserial", "dev": dev, "cfg": c}))
         else:
             i = len(s.lines); s.add("stop"); ev.append(((i, None), {"e": "stop"}))
@@ -63,7 +64,12 @@ def _run(ctx, thorough, rng, exe, tmp):
         elif r.violation != expect: ctx.infra_fail("LifecycleMC LQ=%s: expected %s, got %s" % (q, expect, r.violation))
     # ---- 2. (A) session sequences on the real library
     okcfg = cfgmod.state_tests_like(); okdir = cfgmod.write(okcfg, os.path.join(tmp, "ok"))
-    badcfg = cfgmod.state_tests_like(); badcfg["boards"].append(dict(badcfg["boards"][0])); baddir = cfgmod.write(badcfg, os.path.join(tmp, "bad"))
+    # rejected configurations: noticed in the board file (nothing read yet), in the track file, or only in the train file
+    # (boards and track are read by then: a track output can be switched on before the start fails)
+    badcfg = cfgmod.state_tests_like(); badcfg["boards"].append(dict(badcfg["boards"][0])); bad1 = cfgmod.write(badcfg, os.path.join(tmp, "bad"))
+    badcfg = cfgmod.state_tests_like(); badcfg["trains"][1]["steps"] = 27; bad2 = cfgmod.write(badcfg, os.path.join(tmp, "bad2"))
+    badcfg = cfgmod.state_tests_like(); badcfg["track"][0]["seg"][1]["addr"] = badcfg["track"][0]["seg"][0]["addr"]; bad3 = cfgmod.write(badcfg, os.path.join(tmp, "bad3"))
+    baddir = [bad1, bad2, bad3]
     uid0 = okcfg["boards"][0]["uid"]
     seqs = []
     for a in KINDS:
@@ -101,6 +107,8 @@ def _run(ctx, thorough, rng, exe, tmp):
                 e["running"] = bool(o.get("running")); e["thr"] = thr_of(o)
                 if e["e"] == "startserial": e["ret"] = o.get("ret")
                 if e["e"] == "start":
+                    e["w"] = []
+                    for ch in o.get("wire", []): e["w"] += wire.unhex(ch)
                     e["ret"] = o.get("ret"); gl = rr.out.get(idx[1], [{}])[0]
                     e["seq"] = bool(gl.get("seq_enabled")); e["discard"] = bool(gl.get("discard_rx"))
             out.append(e)
